@@ -63,6 +63,35 @@ Proof.
   destruct (digits_aux 40 n []) as [|c r]; [contradiction|]. apply undecimal_aux_digits. exact H2.
 Qed.
 
+(* ---------- the size record round-trips (sizes below 10^40: the rendering has 40 digits at most) *)
+Lemma undecimal_digits fuel : forall n acc, n < 10 ^ N.of_nat fuel ->
+  exists k, forall a, undecimal_aux (digits_aux fuel n acc) a = undecimal_aux acc (a * 10 ^ k + n).
+Proof.
+  induction fuel as [|f IH]; intros n acc Hn.
+  - cbn in Hn. assert (n = 0) by lia. subst n. exists 0. intro a. cbn [digits_aux]. f_equal. cbn. lia.
+  - cbn [digits_aux].
+    assert (Hd : n mod 10 < 10) by (apply N.mod_lt; lia).
+    assert (Hdm : n = 10 * (n / 10) + n mod 10) by (apply N.div_mod; lia).
+    assert (STEP : forall a, undecimal_aux ((48 + n mod 10) :: acc) a = undecimal_aux acc (a * 10 + n mod 10)).
+    { intro a. cbn [undecimal_aux]. replace ((48 <=? 48 + n mod 10) && (48 + n mod 10 <=? 57)) with true by lia.
+      f_equal. lia. }
+    destruct (n / 10 =? 0) eqn:E.
+    + exists 1. intro a. rewrite STEP. f_equal. apply N.eqb_eq in E. cbn. lia.
+    + assert (Hq : n / 10 < 10 ^ N.of_nat f).
+      { rewrite Nat2N.inj_succ, N.pow_succ_r' in Hn. apply N.div_lt_upper_bound; lia. }
+      destruct (IH (n / 10) ((48 + n mod 10) :: acc) Hq) as (k & Hk). exists (N.succ k). intro a.
+      rewrite Hk, STEP. f_equal. rewrite N.pow_succ_r'. lia.
+Qed.
+
+Lemma undecimal_decimal_eq n : n < 10 ^ 40 -> undecimal (decimal n) = Some n.
+Proof.
+  intro Hn. unfold undecimal, decimal.
+  pose proof (digits_aux_nonempty 40 n [] ltac:(left; discriminate)) as H1.
+  destruct (undecimal_digits 40 n [] Hn) as (k & Hk).
+  destruct (digits_aux 40 n []) as [|c0 r] eqn:E; [contradiction|].
+  rewrite Hk. cbn [undecimal_aux]. reflexivity.
+Qed.
+
 (* ---------- key facts (computed) *)
 Lemma K_ne_1 : eqb_str K_usize K_version = false. Proof. reflexivity. Qed.
 Lemma K_ne_2 : eqb_str K_usize K_action = false. Proof. reflexivity. Qed.
@@ -113,6 +142,42 @@ Proof. unfold usize_ok. intros E H. rewrite pax_get_del, E. exact H. Qed.
 Lemma usize_ok_put n p : usize_ok (pax_set K_usize (decimal n) p).
 Proof. unfold usize_ok. rewrite pax_get_set, eqb_str_refl. apply undecimal_decimal. Qed.
 
+(* ---------- keep_size (the size record added to content-less records when missing) *)
+Lemma keep_size_id h : pax_get K_usize (h_pax h) <> None \/ h_size h = 0 -> keep_size h = h_pax h.
+Proof.
+  unfold keep_size. intros [H|H].
+  - destruct (0 <? h_size h); [|reflexivity]. destruct (pax_get K_usize (h_pax h)); [reflexivity|contradiction].
+  - rewrite H. reflexivity.
+Qed.
+
+Lemma keep_size_cases h : keep_size h = h_pax h \/
+  (0 < h_size h /\ pax_get K_usize (h_pax h) = None /\ keep_size h = pax_set K_usize (decimal (h_size h)) (h_pax h)).
+Proof.
+  unfold keep_size. destruct (0 <? h_size h) eqn:E; [|left; reflexivity].
+  destruct (pax_get K_usize (h_pax h)) eqn:G; [left; reflexivity|]. right. split; [lia|]. split; reflexivity.
+Qed.
+
+Lemma keep_size_get k h : eqb_str k K_usize = false -> pax_get k (keep_size h) = pax_get k (h_pax h).
+Proof.
+  intro E. destruct (keep_size_cases h) as [->|(_ & _ & ->)]; [reflexivity|]. rewrite pax_get_set, E. reflexivity.
+Qed.
+
+Lemma keep_size_usize h : pax_get K_usize (keep_size h) =
+  match pax_get K_usize (h_pax h) with
+  | Some v => Some v
+  | None => if 0 <? h_size h then Some (decimal (h_size h)) else None
+  end.
+Proof.
+  unfold keep_size. destruct (0 <? h_size h).
+  - destruct (pax_get K_usize (h_pax h)) as [v|] eqn:G; [exact G|]. rewrite pax_get_set, eqb_str_refl. reflexivity.
+  - destruct (pax_get K_usize (h_pax h)); reflexivity.
+Qed.
+
+Lemma usize_ok_keep h : usize_ok (h_pax h) -> usize_ok (keep_size h).
+Proof.
+  intro H. destruct (keep_size_cases h) as [->|(_ & _ & ->)]; [exact H|]. apply usize_ok_put.
+Qed.
+
 (* ---------- delete *)
 Definition del_hdr (x : row) : hdr :=
   let h := hdr_of_row x in
@@ -141,10 +206,10 @@ Definition mov_hdr (x : row) (nn : str) : hdr :=
   let h := hdr_of_row x in
   with_size_name (set_pax h (pax_set K_replaces_name (r_name x)
                                (pax_set K_action V_update (pax_set K_version V_1
-                                  (pax_del K_replaces_content (h_pax h)))))) 0 nn.
+                                  (pax_del K_replaces_content (keep_size h)))))) 0 nn.
 
 Lemma mov_hdr_pax x nn : h_pax (mov_hdr x nn) =
-  pax_set K_replaces_name (r_name x) (pax_set K_action V_update (pax_set K_version V_1 (pax_del K_replaces_content (r_pax x)))).
+  pax_set K_replaces_name (r_name x) (pax_set K_action V_update (pax_set K_version V_1 (pax_del K_replaces_content (keep_size (hdr_of_row x))))).
 Proof. reflexivity. Qed.
 Lemma mov_hdr_name x nn : h_name (mov_hdr x nn) = nn. Proof. reflexivity. Qed.
 Lemma mov_hdr_link x nn : h_link (mov_hdr x nn) = r_link x. Proof. reflexivity. Qed.
@@ -159,7 +224,7 @@ Proof.
   split; [|split; [|split; [|split]]]; try assumption; try reflexivity.
   - split; rewrite ?mov_hdr_pax, ?mov_hdr_name, ?mov_hdr_link; try assumption.
     + apply usize_ok_set; [reflexivity|]. apply usize_ok_set; [reflexivity|]. apply usize_ok_set; [reflexivity|].
-      apply usize_ok_del; [reflexivity|]. exact Hu.
+      apply usize_ok_del; [reflexivity|]. apply usize_ok_keep. exact Hu.
     + rewrite A. discriminate.
     + intros _ o Ho. rewrite B in Ho. inversion Ho; subst o. repeat split; assumption.
   - unfold ver_ok. rewrite mov_hdr_pax. paxs. reflexivity.
